@@ -264,6 +264,8 @@ def expand(func_node, expr, depth: int = 4, keep=()):
                 counts[t.id] = counts.get(t.id, 0) + 1
                 if isinstance(s, ast.Assign) and len(s.targets) == 1 and isinstance(s.targets[0], ast.Name):
                     defs[t.id] = s.value
+                elif isinstance(s, ast.AnnAssign) and s.value is not None:
+                    defs[t.id] = s.value
         if isinstance(s, (ast.For, ast.AsyncFor)):
             for n in ast.walk(s.target):
                 if isinstance(n, ast.Name):
@@ -389,3 +391,27 @@ def in_tail_position(loop, stmt) -> bool:
                     return r and last
         return None
     return bool(find(loop.body))
+
+
+def expand_at(g: C.CFG, nid: int, expr, depth: int = 5, keep=()):
+    """`expr` as evaluated at CFG node `nid`, with every local name that has exactly ONE reaching definition there (a plain
+    assignment, also an augmented one) replaced by that definition's value - itself expanded at its own node.  Unlike
+    `expand` this follows the flow: `d = next(it); d = d - x; use(d)` expands use's d to `next(it) - x`."""
+    import copy
+
+    def at(node_id, e, d):
+        class X(ast.NodeTransformer):
+            def visit_Name(self, n):
+                if not isinstance(n.ctx, ast.Load) or n.id in keep or d <= 0:
+                    return n
+                defs = reaching_defs(g, node_id, n.id)
+                if len(defs) != 1 or defs[0][0] != "assign" or defs[0][1] is None:
+                    return n
+                kind, val, dn = defs[0]
+                st = dn.stmt
+                if isinstance(st, ast.AugAssign):
+                    val = ast.BinOp(left=copy.deepcopy(st.target), op=st.op, right=val)
+                    val.left.ctx = ast.Load()
+                return at(dn.id, copy.deepcopy(val), d - 1)
+        return X().visit(copy.deepcopy(e))
+    return at(nid, expr, depth)
